@@ -600,6 +600,20 @@ func init() {
 			return p.e.ts.Ite(a[0].(*Term), a[1].(*Term), a[2].(*Term))
 		},
 		"vfObserve": noop,
+		"vfTier": func(p *Path, fr *frame, a []Value) Value {
+			if p.h.tier == "thorough" {
+				return p.e.ts.BV(64, 1)
+			}
+			return p.e.ts.BV(64, 0)
+		},
+		"vfYieldTo": func(p *Path, fr *frame, a []Value) Value {
+			// forced hand-over to some other enabled thread (if any)
+			if others := p.enabledOthers(); len(others) > 0 {
+				k := p.decide(len(others), "yieldto")
+				p.switchTo(p.cur, others[k])
+			}
+			return nil
+		},
 		"vfSpawnedCount": func(p *Path, fr *frame, a []Value) Value {
 			return p.e.ts.BV(64, uint64(len(p.spawned)))
 		},
